@@ -4,24 +4,139 @@ From V Require Import Base Time Xml Ns SchemaDefs Schema Types Generated Profile
 Local Open Scope string_scope.
 Local Open Scope list_scope.
 
-(* the unverified pre-decoder on raw bytes: xml.Unmarshal = Decoder.Token loop (token_view) + struct decoding (Schema.v) *)
-Definition predecode_bytes (s : string) : res base_response :=
-  do root <- token_view s; unmarshal_base_response root.
-Definition predecode_logout_bytes (s : string) : res logout_response :=
-  do root <- token_view s; unmarshal_logout_response root.
+(* the unverified pre-decoder on raw bytes: Decoder.Decode = Decoder.Token loop (token_view_with, by CharsetReader setting)
+   + struct decoding of that element as it was read (Schema.view_direct: no etree serialisation in between, so a U+000D
+   that came through a character reference stays) *)
+Definition predecode_bytes_with (c : charset_reader) (s : string) : res base_response :=
+  do root <- token_view_with c s; unmarshal_base_response_direct root.
+Definition predecode_logout_bytes_with (c : charset_reader) (s : string) : res logout_response :=
+  do root <- token_view_with c s; unmarshal_logout_response_direct root.
+(* xmlUnmarshalDocument (pass-through CharsetReader): the pre-decoders of the repaired tree *)
+Definition predecode_bytes (s : string) : res base_response := predecode_bytes_with CsPassThrough s.
+Definition predecode_logout_bytes (s : string) : res logout_response := predecode_logout_bytes_with CsPassThrough s.
+(* xml.Unmarshal (no CharsetReader): the pre-decoders before 6cc4dbc *)
+Definition predecode_bytes_original (s : string) : res base_response := predecode_bytes_with CsNone s.
+Definition predecode_logout_bytes_original (s : string) : res logout_response := predecode_logout_bytes_with CsNone s.
 
 Theorem predecode_agrees_from_bytes dsig decrypt cfg now s tree r b :
   read_tree s = Ok tree ->                                         (* what parseResponse hands to validation *)
-  (forall toks i, raw_tokens s = Ok toks -> In (RProcInst "xml" i) toks -> encoding_ok i = true) ->
-  (forall raw, read_root_raw s = Ok (Some raw) -> well_formed_attrs raw = true) ->   (* no duplicated attribute names *)
+  (forall raw, read_root_raw s = Ok (Some raw) -> well_formed_attrs raw = true /\ cr_free raw = true) ->
+                                                 (* no duplicated attribute names; no U+000D through a character reference *)
   (cfg_skip_sig cfg = true \/ dsig tree = DMissing) ->
   validate_response_tree dsig decrypt cfg now tree = Ok r ->
   predecode_bytes s = Ok b ->
   br_id b = r_id r /\ br_in_response_to b = r_in_response_to r /\ br_destination b = r_destination r /\
   br_version b = r_version r /\ br_issuer b = r_issuer r.
 Proof.
-  intros Ht Henc Hwf Hpath Hv Hb.
-  destruct (predecode_view_of_validated_tree s tree Ht Henc) as (raw & Hview & Hraw & Hd).
-  unfold predecode_bytes in Hb. rewrite Hview in Hb. cbn [bind] in Hb. subst tree.
-  exact (predecode_agrees_when_root_unsigned dsig decrypt cfg now raw r b (Hwf raw Hraw) Hpath Hv Hb).
+  intros Ht Hwf Hpath Hv Hb.
+  destruct (predecode_view_of_validated_tree s tree Ht) as (raw & Hview & Hraw & Hd).
+  unfold predecode_bytes, predecode_bytes_with in Hb. change (token_view_with CsPassThrough s) with (token_view s) in Hb.
+  rewrite Hview in Hb. cbn [bind] in Hb. subst tree. destruct (Hwf raw Hraw) as [W C].
+  exact (predecode_direct_agrees_when_root_unsigned dsig decrypt cfg now raw r b W C Hpath Hv Hb).
+Qed.
+
+(* F13: the premise "no U+000D" cannot be dropped.  InResponseTo="_q&#13;x" on the root: the pre-decoder reports the value
+   with U+000D; validation decodes etree's RE-SERIALISATION of the element (xmlUnmarshalElement), which writes U+000D raw
+   (F8), and the second tokenizer pass turns it into U+000A -- [mechanism]: reading back what etree writes for the tree. *)
+Definition f13_doc : string :=
+  "<samlp:Response xmlns:samlp=""urn:oasis:names:tc:SAML:2.0:protocol"" ID=""_1"" InResponseTo=""_q&#13;x"" Version=""2.0""/>".
+Definition f13_cr_value : string := ("_q" ++ cr1 ++ "x")%string.      (* what &#13; denotes *)
+Definition f13_lf_value : string := ("_q" ++ lf1 ++ "x")%string.
+Definition f13_attrs (v : string) : list attr :=
+  [ {| at_space := "xmlns"; at_key := "samlp"; at_val := "urn:oasis:names:tc:SAML:2.0:protocol" |};
+    {| at_space := ""; at_key := "ID"; at_val := "_1" |};
+    {| at_space := ""; at_key := "InResponseTo"; at_val := v |};
+    {| at_space := ""; at_key := "Version"; at_val := "2.0" |} ].
+Theorem predecode_disagrees_on_cr_reference :
+  read_tree f13_doc = Ok (Elem "samlp" "Response" (f13_attrs f13_cr_value) []) /\
+  well_formed_attrs (Elem "samlp" "Response" (f13_attrs f13_cr_value) []) = true /\
+  cr_free (Elem "samlp" "Response" (f13_attrs f13_cr_value) []) = false /\
+  option_map br_in_response_to (match predecode_bytes f13_doc with Ok b => Some b | Err _ => None end) = Some f13_cr_value /\
+  option_map r_in_response_to
+    (match unmarshal_response (Elem "samlp" "Response" (f13_attrs f13_cr_value) []) with Ok r => Some r | Err _ => None end)
+    = Some f13_lf_value /\
+  read_tree (Build.etree_write (Elem "samlp" "Response" (f13_attrs f13_cr_value) []))
+    = Ok (Elem "samlp" "Response" (f13_attrs f13_lf_value) []).
+Proof. repeat split; vm_compute; reflexivity. Qed.
+
+(* ================================================================ the translated pre-decoders over the tokenizer model
+   GenDeflate.v's xml.Unmarshal oracle (indexed by the CharsetReader setting the translator read off xmlUnmarshalDocument)
+   instantiated with the model: token view under that setting + schema interpreter.  What the struct holds after a FAILED
+   decode is not modelled (the pre-decoders discard it: Deflate.unmarshal_of looks at the error first). *)
+From V Require Import Deflate P_Deflate GenPrelude GenPreludeD GenPreludeT GenPreludeDeflate GenDeflate P_GenDeflate.
+
+Definition um_base_model (c : charset_reader) (s : string) : base_response * option err :=
+  match predecode_bytes_with c s with Ok b => (b, None) | Err e => (zero_base_response, Some e) end.
+Definition um_logout_model (c : charset_reader) (s : string) : logout_response * option err :=
+  match predecode_logout_bytes_with c s with Ok b => (b, None) | Err e => (zero_logout_response, Some e) end.
+
+Lemma unmarshal_of_um_base_model c s : unmarshal_of (um_base_model c) s = predecode_bytes_with c s.
+Proof. unfold unmarshal_of, um_base_model. destruct (predecode_bytes_with c s); reflexivity. Qed.
+Lemma unmarshal_of_um_logout_model c s : unmarshal_of (um_logout_model c) s = predecode_logout_bytes_with c s.
+Proof. unfold unmarshal_of, um_logout_model. destruct (predecode_logout_bytes_with c s); reflexivity. Qed.
+
+Lemma maybe_deflate_ext inflate {A} (d1 d2 : string -> res A) data m :
+  (forall x, d1 x = d2 x) -> maybe_deflate inflate A d1 data m = maybe_deflate inflate A d2 data m.
+Proof.
+  intros H. unfold maybe_deflate, md_run, md_after. rewrite (H data). destruct (d2 data); [reflexivity|].
+  cbv zeta. destruct (snd _); [reflexivity|]. destruct (_ >? _)%Z; [reflexivity|]. cbn [md_result]. apply H.
+Qed.
+
+(* the pre-decoder of the repaired tree, from the encoded form value on: base64, then maybeDeflate (default limit) over the
+   token view WITH the pass-through CharsetReader and the schema interpreter *)
+Definition predecode_encoded (inflate : string -> Z -> string * bool) (enc : string) : res (option base_response) :=
+  match b64_decode enc with
+  | Err e => Err e
+  | Ok raw => res_some (maybe_deflate inflate base_response predecode_bytes raw c_default)
+  end.
+Definition predecode_logout_encoded (inflate : string -> Z -> string * bool) (enc : string) : res (option logout_response) :=
+  match b64_decode enc with
+  | Err e => Err e
+  | Ok raw => res_some (maybe_deflate inflate logout_response predecode_logout_bytes raw c_default)
+  end.
+
+Theorem source_predecoders_read_with_pass_through inflate enc :
+  G_DecodeUnverifiedBaseResponse inflate um_base_model enc = PVal (predecode_encoded inflate enc) /\
+  G_DecodeUnverifiedLogoutResponse inflate um_logout_model enc = PVal (predecode_logout_encoded inflate enc).
+Proof.
+  split.
+  - rewrite G_DecodeUnverifiedBaseResponse_is_model, unverified_entry_is_maybe_deflate by reflexivity.
+    unfold predecode_encoded. destruct (b64_decode enc); [|reflexivity].
+    rewrite (maybe_deflate_ext inflate _ predecode_bytes); [reflexivity|]. intros x. apply unmarshal_of_um_base_model.
+  - rewrite G_DecodeUnverifiedLogoutResponse_is_model, unverified_entry_is_maybe_deflate by reflexivity.
+    unfold predecode_logout_encoded. destruct (b64_decode enc); [|reflexivity].
+    rewrite (maybe_deflate_ext inflate _ predecode_logout_bytes); [reflexivity|]. intros x. apply unmarshal_of_um_logout_model.
+Qed.
+
+(* a raw (uncompressed) document etree reads is pre-decoded from its own bytes, whatever its declaration says, whenever
+   the schema interpreter takes its root: the DEFLATE branch is never entered *)
+Theorem predecode_encoded_raw inflate enc s tree :
+  b64_decode enc = Ok s -> read_tree s = Ok tree ->
+  exists raw, read_root_raw s = Ok (Some raw) /\ dedupe raw = tree /\
+    (forall b, unmarshal_base_response_direct raw = Ok b -> predecode_encoded inflate enc = Ok (Some b)).
+Proof.
+  intros Hb Ht. destruct (predecode_view_of_validated_tree s tree Ht) as (raw & Hview & Hraw & Hd).
+  exists raw. split; [exact Hraw|]. split; [exact Hd|]. intros b Hu.
+  unfold predecode_encoded. rewrite Hb. unfold maybe_deflate, md_run, predecode_bytes, predecode_bytes_with.
+  change (token_view_with CsPassThrough s) with (token_view s). rewrite Hview. cbn [bind]. rewrite Hu. reflexivity.
+Qed.
+
+(* ... which the code before the repair did not do: the ISO-8859-1 witness through the ORIGINAL pre-decoder falls into
+   the DEFLATE branch, and its error is what the caller gets (for every inflate behaviour that rejects the XML text) *)
+Theorem predecode_foreign_encoding_before_repair_refuted :
+  read_tree latin1_doc = Ok (Elem "" "a" [ {| at_space := ""; at_key := "ID"; at_val := "1" |} ] []) /\
+  token_view_original latin1_doc = Err syntax_error /\
+  token_view latin1_doc = Ok (Elem "" "a" [ {| at_space := ""; at_key := "ID"; at_val := "1" |} ] []) /\
+  (exists e, predecode_bytes_original latin1_doc = Err e) /\
+  (forall inflate : string -> Z -> string * bool, snd (inflate latin1_doc (read_limit c_default)) = true ->
+     maybe_deflate inflate base_response predecode_bytes_original latin1_doc c_default = Err e_inflate).
+Proof.
+  destruct P_XmlTok.predecode_foreign_encoding_before_repair_refuted as (A & B & C).
+  split; [exact A|]. split; [exact B|]. split; [exact C|]. split.
+  - eexists. unfold predecode_bytes_original, predecode_bytes_with. change (token_view_with CsNone latin1_doc) with (token_view_original latin1_doc).
+    rewrite B. reflexivity.
+  - intros inflate Hi. unfold maybe_deflate, md_run, predecode_bytes_original, predecode_bytes_with.
+    change (token_view_with CsNone latin1_doc) with (token_view_original latin1_doc). rewrite B. cbn [bind].
+    unfold md_after, limit_read_all. change (eff_limit c_default) with c_default.
+    change (read_limit c_default <=? 0)%Z with false. cbv zeta. cbn [snd fst]. rewrite Hi. reflexivity.
 Qed.
